@@ -171,9 +171,15 @@ class Prop(object):
                         if probs:
                             stage = 'grammar'
                         import copy as _copy
-                        if bytes(_copy.copy(m)) != blob:
+                        from mc import keyhist as _H
+                        if bytes(_copy.copy(m)) != blob or bytes(_copy.deepcopy(m)) != blob:
                             stage = stage or 'copy'
-                            probs.append('a copy of the message exports other octets')
+                            probs.append('a copy (copy.copy / copy.deepcopy) of the message exports other octets')
+                        # reading is reading: after every readable attribute of the message was read it exports what it exported before
+                        _H.read_everything(m)
+                        if bytes(m) != blob:
+                            stage = stage or 'reading-changes-message'
+                            probs.append('after all readable attributes were read the message exports other octets')
                         if rec is not None and not probs:
                             lit = rec['literal']
                             raw = content if isinstance(content, bytes) else content.encode('utf-8')
@@ -451,9 +457,13 @@ class Prop(object):
                                 probs.append('signature multiset changes on import')
                             # a copy of a message is that message: built by PGPy (e) or read (e2), it exports the same composition
                             import copy as _copy
-                            for what, src in (('a copy of the message', e), ('a copy of the imported message', e2)):
+                            from mc import keyhist as _H
+                            _H.read_everything(e)
+                            if bytes(e) != blob:
+                                probs.append('after all readable attributes were read the message exports other octets')
+                            for what, src, cp in (('a copy of the message', e, _copy.copy), ('a copy of the imported message', e2, _copy.copy), ('a deep copy of the message', e, _copy.deepcopy)):
                                 try:
-                                    cb = bytes(_copy.copy(src))
+                                    cb = bytes(cp(src))
                                 except Exception as ex:
                                     probs.append('%s cannot be exported: %r' % (what, ex))
                                     continue
